@@ -480,7 +480,7 @@ func errClassOf(msg string) string {
 	case strings.HasPrefix(m, "expected "):
 		return "expected"
 	}
-	return "other:" + firstLine(m)
+	return "other:" + firstLine16(m)
 }
 
 // runErrClass: is a run-time failure a *type* failure (the checker should have excluded it for a
@@ -732,13 +732,13 @@ func c03Oracle(c *Ctx, cs c03Case) {
 		} else if strings.Contains(panicked, "FuncOf") || strings.Contains(panicked, "interface conversion") {
 			key = "c03:closure-with-nil-typed-body-panics"
 		}
-		violateKeyed(c, Violation{What: "expr.Compile panics instead of returning an error", Key: key, Input: in, Expect: "an error or a program", Got: firstLine(panicked)})
+		violateKeyed16(c, Violation{What: "expr.Compile panics instead of returning an error", Key: key, Input: in, Expect: "an error or a program", Got: firstLine16(panicked)})
 		return
 	}
 	if cs.fault != "" {
 		// (b) a single-fault mutant must be rejected
 		if cerr == nil {
-			violateKeyed(c, Violation{What: "an expression that violates a documented typing rule is accepted by Compile", Key: "c03:ill-typed-accepted:" + cs.fault, Input: in,
+			violateKeyed16(c, Violation{What: "an expression that violates a documented typing rule is accepted by Compile", Key: "c03:ill-typed-accepted:" + cs.fault, Input: in,
 				Expect: "Compile rejects (" + cs.fault + ")", Got: "accepted"})
 		} else {
 			c.R.Count("oracle:mutants-rejected", 1)
@@ -754,7 +754,7 @@ func c03Oracle(c *Ctx, cs c03Case) {
 	if cerr != nil || !cs.static {
 		if cerr != nil && cs.goal != nil && cs.expect == 0 {
 			// a generated well-typed expression is rejected: the generator or the reference rules are off
-			c.R.Mismatch("c03/well-typed-rejected", cs.env.Name+" | "+cs.src, "accepted by the reference rules", firstLine(cerr.Error()))
+			c.R.Mismatch("c03/well-typed-rejected", cs.env.Name+" | "+cs.src, "accepted by the reference rules", firstLine16(cerr.Error()))
 		}
 		return
 	}
@@ -769,7 +769,7 @@ func c03Oracle(c *Ctx, cs c03Case) {
 		case "value":
 			c.R.Count("oracle:value-dependent-failures", 1)
 		case "type":
-			violateKeyed(c, Violation{What: "an accepted, statically typed program fails at run time for a type reason", Key: "c03:static-program-type-error:" + c03TypeErrKey(cs.src, rv.rerr), Input: in,
+			violateKeyed16(c, Violation{What: "an accepted, statically typed program fails at run time for a type reason", Key: "c03:static-program-type-error:" + c03TypeErrKey(cs.src, rv.rerr), Input: in,
 				Expect: "success or a value-dependent failure", Got: rv.rerr})
 		default:
 			c.R.Mismatch("c03/run-error-class", cs.src, "", rv.rerr)
@@ -780,13 +780,13 @@ func c03Oracle(c *Ctx, cs c03Case) {
 	switch cs.expect {
 	case 0:
 		if ty != nil && ty.Kind() != reflect.Interface && (rv.out == nil || reflect.TypeOf(rv.out) != ty) {
-			violateKeyed(c, Violation{What: "the result's dynamic type differs from the type the checker reported", Key: "c03:dynamic-type-differs:" + c03DynKey(cs.src), Input: in,
+			violateKeyed16(c, Violation{What: "the result's dynamic type differs from the type the checker reported", Key: "c03:dynamic-type-differs:" + c03DynKey(cs.src), Input: in,
 				Expect: "a value of type " + ty.String(), Got: fmt.Sprintf("%T", rv.out)})
 		}
 	default:
 		want := c03Expects[cs.expect].kind
 		if rv.out == nil || reflect.TypeOf(rv.out).Kind() != want || reflect.TypeOf(rv.out).PkgPath() != "" {
-			violateKeyed(c, Violation{What: "the result under As* is not exactly of the requested kind", Key: "c03:as-kind-not-exact", Input: in,
+			violateKeyed16(c, Violation{What: "the result under As* is not exactly of the requested kind", Key: "c03:as-kind-not-exact", Input: in,
 				Expect: want.String(), Got: fmt.Sprintf("%T", rv.out)})
 		}
 	}
@@ -837,7 +837,7 @@ func compileRunOpts(src string, env interface{}, opts []expr.Option) (rv realVer
 	rv.accepted = true
 	out, rerr := expr.Run(prog, env)
 	if rerr != nil {
-		rv.rerr = firstLine(rerr.Error())
+		rv.rerr = firstLine16(rerr.Error())
 		return
 	}
 	rv.ran, rv.out = true, out
